@@ -183,9 +183,35 @@ def streams(tier, rng, P, only=None, cases=None):
         return None
     s5 = Stream("rhythmblocks", cases if (cases and only == "rhythmblocks") else mk_r(), lambda c, st, f: [], r_judge, lambda c, i, m: i[1].get("bin1") if i[0] == "ok" else None,
                 "Sub / tuplet / loop blocks inside Rhythm{} vs the same blocks over n-notes")
+    # ---- commands that write something but do not move the pointer (tempo ramps, controller ramps, text) inside Sub / tuplet / loop
+    #      blocks: the notes stand where they stand without those commands
+    from ..smfpy import smf_events
+    def mk_x():
+        cs = []
+        extras = ["TempoChange(120,140,!32)", "TempoChange(100,90,!64)", "TempoChange(120,60,!4)", "TempoChange(80,100)", "Tempo(90)", "y7.onTime(0,127,!8)", "y11.T(127,0,!32)",
+                  "p.onTime(0,64,!16)", "TrackName={\"x\"};", "y7,100;", "@5;", "TempoChange(120,121,!1)", "TempoChange(120,140,%1)", "TempoChange(60,61,%5)"]
+        for i in range(600 if big else 120):
+            notes = [rng.choice("cdefgab") + rng.choice(["", "", "8", "16"]) for _ in range(rng.randrange(2, 6))]
+            k = rng.randrange(0, len(notes) + 1); ex = rng.choice(extras)
+            with_ = " ".join(notes[:k] + [ex] + notes[k:]); without = " ".join(notes)
+            wrap = rng.choice(["Sub{%s} f", "{%s}4 f", "{%s}2 f g", "[2 %s] f", "Sub{ {%s}4 } f", "'c e' Sub{%s} g", "{c {%s}8 d}2 f"])
+            a = "l4 " + (wrap % with_) + " n100"; b = "l4 " + (wrap % without) + " n100"
+            cs.append(dict(req="compile2 %s %s" % (hx(a), hx(b)), src=a, src2=b, show="%s   vs   %s" % (a, b), key="x%d" % i))
+        return cs
+    def x_judge(c, impl, m):
+        st, f = impl
+        if st != "ok": return ("violation", "block program did not compile normally: " + st)
+        ta, tb_ = smf_events(f["bin1"]), smf_events(f["bin2"])
+        if ta is None or tb_ is None or len(ta) != len(tb_): return ("violation", "different numbers of tracks")
+        for a, b in zip(ta, tb_):
+            na = [(e[0], e[2]) for e in a if e[1] in ("on", "off")]; nb = [(e[0], e[2]) for e in b if e[1] in ("on", "off")]
+            if na != nb: return ("violation", "a command that does not move the pointer moved the notes of a block: %s vs %s" % (na[:6], nb[:6]))
+        return None
+    s6 = Stream("blockextras", cases if (cases and only == "blockextras") else mk_x(), lambda c, st, f: [], x_judge, lambda c, i, m: i[1].get("bin1") if i[0] == "ok" else None,
+                "tempo / controller ramps and texts inside blocks do not move the notes")
     s4 = Stream("oncemarks", cases if (cases and only == "oncemarks") else mk_q(), lambda c, st, f: [], q_judge, lambda c, i, m: i[1].get("bin1") if i[0] == "ok" else None,
                 "octave-once marks inside blocks vs explicit octave commands")
     s3 = Stream("chordtie", cases if (cases and only == "chordtie") else mk_ct(), lambda c, st, f: [], ct_judge,
                 lambda c, i, m: i[1].get("bin1") if i[0] == "ok" else None, "chord with tie marks vs the same chord without", timeout_case=20.0)
     sx = execstream.exec_stream(tier, rng, P, only, cases)
-    return [s for s in (s1, s3, s4, s5, sx) if only in (None, s.name)]
+    return [s for s in (s1, s3, s4, s5, s6, sx) if only in (None, s.name)]
